@@ -147,6 +147,9 @@ func last(p []string) string {
 }
 
 func finishModel(o *core.Outcome, c *core.Ctx, r *modelRun) *core.Outcome {
+	for k, v := range r.m.Stats {
+		o.Probes["model_"+k] += v
+	}
 	if c.WantScenario || o.V != nil {
 		o.Scenario = scenario(r.w, nil)
 	}
